@@ -3,10 +3,12 @@
 import json, os, glob, subprocess
 VERIF = os.path.dirname(os.path.dirname(os.path.abspath(__file__)))
 props = [json.loads(l) for l in open(os.path.join(VERIF, "properties.jsonl")) if l.strip()]
+accepted_path = os.path.join(VERIF, "props", "accepted.txt")
+accepted = set(open(accepted_path).read().split()) if os.path.exists(accepted_path) else set()
 cfgs = {}
 for f in sorted(glob.glob(os.path.join(VERIF, "props", "C*.json"))):
     c = json.load(open(f))
-    if c.get("disabled"):
+    if c.get("disabled") or c["id"] not in accepted:
         continue
     cfgs[c["id"]] = c
 na_path = os.path.join(VERIF, "props", "not_applicable.json")
